@@ -184,6 +184,31 @@ func runC02(o *opts) (*summary, error) {
 				return m
 			})
 		}
+		// well-formed replies with noise in the bytes that belong to no field ("all payloads following a correct header":
+		// the interpretation must not depend on them) - every slack byte in turn, then several at once
+		slack := lt.Rsp[op].slackOffsets()
+		for i := 0; i < len(slack)+n/4; i++ {
+			i := i
+			run(op, serialOf(), "valid-slack", func(l layout, req []byte) []byte {
+				m := l.message(rng, som(op), req[4:8], "valid", nil)
+				switch op {
+				case "GetCardByID":
+					copy(m[8:12], req[8:12])
+				case "GetTimeProfile":
+					m[8] = req[8]
+				}
+				if i < len(slack) {
+					m[slack[i]] = byte(1 + rng.Intn(255))
+				} else {
+					for _, o := range slack {
+						if rng.Intn(2) == 0 {
+							m[o] = byte(rng.Intn(256))
+						}
+					}
+				}
+				return m
+			})
+		}
 		// sentinels
 		for i := 0; i < 12; i++ {
 			i := i
